@@ -341,6 +341,13 @@ def is_awaited_result_of(e, stable, site=None):
     return False
 
 
+def link_next_path(link):
+    for x in walk(link):
+        if is_iter_next(x):
+            return x[1]
+    return ""
+
+
 def full_slice_element(link, slice_expr=None):
     """link is the element of a plain `for x in slice.iter[_mut]()[.enumerate()]` loop - no filter / skip / take / rev / zip
     adaptor in between.  Returns the iterated slice expression, or None."""
@@ -364,6 +371,15 @@ def full_slice_element(link, slice_expr=None):
     x = x[2][0]
     if is_call(x, name_contains="IntoIterator>::into_iter"):
         x = x[2][0]
+    elif not enum and is_call(x) and x[1].endswith("::into_iter") and ("IntoIterator for &'a [T]" in x[1] or "IntoIterator for &'a mut [T]" in x[1]) \
+            and "slice::Iter" in link_next_path(link):
+        # `for x in slice_ref`: the slice's own IntoIterator, no adaptor
+        sl = x[2][0]
+        while isinstance(sl, tuple) and sl and sl[0] == "call" and (sl[1].endswith("::deref_mut") or sl[1].endswith("::deref")):
+            sl = sl[2][0]
+        if slice_expr is not None and sl != slice_expr:
+            return None
+        return sl
     if enum:
         if not is_call(x, name_contains="Iterator::enumerate"):
             return None
